@@ -10,9 +10,12 @@ Alpha == <<
   Recv_(3, 255, 3, 0, P57), Recv_(3, 255, 3, 11, Pa), Recv_(3, 255, 3, 12, Pa), Recv_(3, 255, 3, 21, PEmpty),
   Recv_(3, 255, 3, 22, P1), Recv_(3, 255, 3, 22, Px), Recv_(3, 255, 3, 32, PEmpty), Recv_(4, 0, 1, 0, Pa),
   Recv_(1, 0, 1, 0, Pa),                                                         \* a message that succeeds
+  Recv_(1, 255, 3, 22, P1), Recv_(1, 255, 3, 32, PEmpty),                        \* the known node wakes inside an episode
+  Recv_(0, 255, 3, 2, P21), Recv_(0, 255, 0, 18, P21),                           \* a version report inside an episode
   Recv_(3, 255, 0, 17, P20), Recv_(1, 255, 0, 17, P20), Recv_(2, 255, 0, 17, P20), Recv_(4, 255, 0, 17, P20),
   Recv_(1, 1, 0, 6, Pa), Recv_(2, 0, 0, 6, Pa),                                  \* child presentations
-  RecvF(3, 0, 1, 0, Pa, "pres", 0), RecvF(1, 1, 1, 0, Pa, "pres", 0), RecvF(3, 255, 3, 0, P57, "pres", 0)
+  RecvF(3, 0, 1, 0, Pa, "pres", 0), RecvF(1, 1, 1, 0, Pa, "pres", 0), RecvF(3, 255, 3, 0, P57, "pres", 0),
+  Cycle_
 >>
 Inits == << St(Reg, "2.0", "2.0", TRUE), St(Reg, "2.1", "2.1", TRUE), St(Reg, "2.2", "2.2", TRUE),
             St(Reg, "1.4", "1.4", TRUE), St(Reg, "1.5", "1.5", TRUE) >>
